@@ -229,6 +229,25 @@ func runCase(ops []string, forced []string, em *emitter) {
 				cfg.flows = append(cfg.flows, f)
 				ans = "ok"
 			}
+		case "rflow":
+			if len(w) >= 3 {
+				if _, ok := realTemplates[w[2]]; ok {
+					f := &flowDef{name: proto.Dec(w[1]), url: txnURL, hasURL: true, real: w[2]}
+					ok2 := true
+					for _, x := range w[3:] {
+						kv := strings.SplitN(x, "=", 2)
+						if len(kv) == 2 && kv[0] == "url" && kv[1] != "-" {
+							f.url = proto.Dec(kv[1])
+						} else {
+							ok2 = false
+						}
+					}
+					if ok2 {
+						cfg.flows = append(cfg.flows, f)
+						ans = "ok"
+					}
+				}
+			}
 		case "connnull":
 			if len(w) == 3 && cfg.flow(proto.Dec(w[1])) != nil && (w[2] == "req" || w[2] == "res") {
 				f := cfg.flow(proto.Dec(w[1]))
@@ -356,6 +375,7 @@ func runCase(ops []string, forced []string, em *emitter) {
 					return "accept live=fail:" + classifyLoadErr(err)
 				}
 				eng.live = live
+				eng.handler = realHandler(live)
 				loaded = true
 				em.line("K load-accept")
 				return "accept live=ok"
@@ -412,7 +432,8 @@ func runCase(ops []string, forced []string, em *emitter) {
 				break
 			}
 			ans = guarded(func() string {
-				eng.runRaw(dir, get("method"), get("url"), get("path"), get("query"), get("hdr"), get("body"), status)
+				full, _ := proto.KV(w, "full")
+				eng.runRaw(dir, get("method"), get("url"), get("path"), get("query"), get("hdr"), get("body"), status, full == "1")
 				em.line("K rtxn-" + dir)
 				return "done"
 			})
